@@ -19,7 +19,7 @@ ASSUME_THREADS = [
 
 
 def c10(a):
-    runs = a.runs or (20000 if a.tier == "quick" else 3000000)
+    runs = a.runs or (20000 if a.tier == "quick" else 10000000)
     budget = a.budget or (40 if a.tier == "quick" else 1500)
     return T.run_thread_check("C10", a.tier, [T.Part("pool_sim", "asan", runs)], budget, "DESIGN.md §4.1 C10", ASSUME_THREADS, REAL_VS_STUB_THREADS,
                               det_sample=2000 if a.tier == "quick" else 20000)
@@ -34,7 +34,7 @@ def c09(a):
 
 
 def c11(a):
-    pr = a.runs or (10000 if a.tier == "quick" else 1000000)
+    pr = a.runs or (10000 if a.tier == "quick" else 3000000)
     br = max(50, pr // 7) if a.runs else (1500 if a.tier == "quick" else 100000)
     budget = a.budget or (75 if a.tier == "quick" else 1800)
     cat = 48 if a.tier == "quick" else 512
